@@ -59,6 +59,12 @@ def ops():
 
     def all_states(m):
         return sorted(v.qname() for v in m._model.states())
+    def sens(m, positions):
+        # remember *which* parameters (by position in the published order) the caller asked for: the request the solver holds must name them
+        pub = m.parameters()
+        m._c11_requested = None if positions is None else sorted(positions)
+        m.enable_sensitivities(True, None if positions is None else [pub[k_] for k_ in positions])
+
     def adm(m, direct, var):
         # the dosed variable is not part of administration(): remember it on the object for the comparison with a fresh model
         m.set_administration('central', amount_var=var, direct=direct)
@@ -76,8 +82,10 @@ def ops():
         ('out_inter', lambda m: m.set_outputs([[v.qname() for v in m._model.variables(inter=True)][0]])),
         ('rename_out', lambda m: m.set_output_names({first_out(m): 'OUT_%d' % len(m.outputs()[0])})),
         ('rename_par', lambda m: m.set_parameter_names({m.parameters()[-1]: 'PAR_%d' % len(m.parameters()[-1])})),
-        ('sens_on', lambda m: m.enable_sensitivities(True)),
-        ('sens_subset', lambda m: m.enable_sensitivities(True, [m.parameters()[-1]])),
+        ('sens_on', lambda m: sens(m, None)),
+        ('sens_subset', lambda m: sens(m, [len(m.parameters()) - 1])),
+        ('sens_two', lambda m: sens(m, [len(m.parameters()) - 1, 0])),          # (induction step only) first and last parameter, given in reverse order
+        ('rename_first_par', lambda m: m.set_parameter_names({m.parameters()[0]: 'PAR0_%d' % len(m.parameters()[0])})),          # (induction step only)
         ('sens_off', lambda m: m.enable_sensitivities(False)),
         ('simulate', lambda m: m.simulate(np.arange(1, m.n_parameters() + 1, dtype=float) * 0.5, [1.0, 2.0])),
         ('copy', lambda m: m.copy()),
@@ -108,6 +116,12 @@ def predicates(chi_sym, mk, m):
         return ('model.surgery', 'the myokit model differs from the one a fresh model gets for administration %s' % (m.administration(),))
     if bool(m.has_sensitivities()) != (m._simulator.sensitivities is not None):
         return ('flags.consistent', 'has_sensitivities() is %s, the solver holds the request %s' % (m.has_sensitivities(), m._simulator.sensitivities))
+    if m._simulator.sensitivities is not None and hasattr(m, '_c11_requested') and len(m._parameter_names) == len(m.parameters()):
+        n_st = len(mech.expected_parameter_names(m._model)[0])
+        idx = range(len(m._parameter_names)) if m._c11_requested is None else [k_ for k_ in m._c11_requested if k_ < len(m._parameter_names)]
+        want_req = ['init(%s)' % m._parameter_names[k_] if k_ < n_st else m._parameter_names[k_] for k_ in idx]
+        if (m._c11_requested is None or max(m._c11_requested) < len(m._parameter_names)) and list(m._simulator.sensitivities[1]) != want_req:
+            return ('flags.consistent', 'the solver computes sensitivities w.r.t. %s; the parameters at the requested positions %s of the published order are %s' % (list(m._simulator.sensitivities[1]), m._c11_requested, want_req))
     if m._simulator.sensitivities is not None and list(m._simulator.sensitivities[0]) != list(m._output_names):
         return ('flags.consistent', 'the solver computes sensitivities of the outputs %s (in this order), the model returns the outputs %s' % (list(m._simulator.sensitivities[0]), list(m._output_names)))
     if m.n_parameters() != len(m.parameters()) or m.n_outputs() != len(m.outputs()) or len(set(m.parameters())) != len(m.parameters()):
@@ -131,6 +145,9 @@ def run_history(chi_sym, mk, seq, opmap):
         try:
             r = opmap[name](m)
         except EXPECTED_ERRORS as ex:
+            if name in ('copy', 'sens_on', 'sens_off', 'simulate'):
+                # these requests are valid in every state of a model: an error is not a documented rejection
+                return ('copy.equal' if name == 'copy' else 'flags.consistent', '%s raises %r on a validly configured model' % (name, ex), done + [name])
             done.append(name + '!')
             # a rejected call must leave the model unchanged in its predicates
             bad = predicates(chi_sym, mk, m)
@@ -204,7 +221,7 @@ def explore_program(rec, prog_name, first_ops, depth):
     mk = dict(programs(chi_sym))[prog_name]
     opl = ops()
     opmap = dict(opl)
-    names = [n for n, _ in opl if n != 'noop']
+    names = [n for n, _ in opl if n not in ('noop', 'sens_two', 'rename_first_par')]
     fails = {}
     n_hist = 0
     for first in first_ops:
